@@ -5,10 +5,14 @@
   are: (1) hostile revisions (negative through the etcd API = huge after the uint64 cast, far-future,
   zero) take the rejection path and their revision is still resolved; (2) after ANY schedule of ANY
   requests the node keeps serving: once in-flight requests have returned the read revision catches up
-  (C04) and a following create + read of a fresh key behaves normally; (3) `Decode`'s slice-bound
-  panics are not reachable from stored internal keys.
+  (C04) and a following create + read of a fresh key behaves normally; (3) since /repo 5ace897 `Decode`
+  reports a key too short to be an internal key instead of indexing out of range: NO key in the store and NO
+  partition border (client-supplied range-stream borders of 1, 4, 12 bytes included) makes a range read, a
+  count or a streamed range panic — `list_never_panics`, `stream_with_any_borders_never_panics`; the one panic
+  left in the backend model is characterised (`compact_panics_only_in_ttl_pass`).
 -/
 import KB.Lemmas.Serve
+import KB.Lemmas.Total
 namespace KB.C20Requests
 open KB Generated
 
@@ -160,12 +164,90 @@ theorem probe_after_alphabet_requests {g0 : G} (h0 : C02.Init g0) (hs : C02.Stor
     bget g1.cfg g1.store k 0 = .found v (g.dealt + 1) :=
   probe_serves h0 hs ⟨sched, rfl⟩ hq hp hb ((AlphaInv.init h0 hs).run sched hsa).st id k v hk hv hfresh
 
-/-- `Decode` never panics on what the store holds: every internal key written by the backend is an
-`encode k r`, which is at least 13 bytes long and decodes. -/
+/-- `Decode` decodes what the store holds: every internal key written by the backend is an `encode k r`, which
+is at least 13 bytes long and decodes. (Before /repo 5ace897 this was what kept `Decode`'s index-out-of-range
+away from stored keys; now `Decode` is total — next theorems.) -/
 theorem stored_keys_decode (k : Bytes) (r : Nat) (hr : r < 2 ^ 64) :
     decode (encode k r) = .ok k r ∧ 13 ≤ (encode k r).length := by
   refine ⟨decode_encode k r hr, ?_⟩
   rw [encode_length, magic_length]; omega
+
+/-- `Decode` is total: ANY bytes are decoded or reported, never an index out of range (/repo 5ace897). -/
+theorem decode_total (ik : Bytes) : decode ik ≠ .panic ∧ (decode ik = .err ∨ ∃ k r, decode ik = .ok k r) :=
+  ⟨decode_never_panics ik, KB.decode_total ik⟩
+
+/-- Border adjustment (`adjustPartitionsBorders`) is total: ANY partition borders — whatever the engine hands
+over, client-supplied bytes clipped into a region included. -/
+theorem adjustBorders_total (ps : List (Bytes × Bytes)) : ∃ out, adjustBorders none ps = some out :=
+  KB.adjustBorders_total none ps
+
+/-- ... in particular a short border (1 byte, the bare magic, 12 bytes) is left alone, where the old code died
+(`C10.old_decode_panics`). -/
+theorem short_border_left_alone (pe : Option Bytes) (s e : Bytes) (he : e.length < 13) (rest out : List (Bytes × Bytes))
+    (hne : rest ≠ []) (h : adjustBorders (some e) rest = some out) :
+    adjustBorders pe ((s, e) :: rest) = some ((pe.getD s, e) :: out) := by
+  rw [adjustBorders.eq_3 pe s e rest (fun h => hne h), decode_short he]
+  simp [h]
+
+/-- A STREAMED RANGE WITH ANY BORDERS NEVER PANICS: for ARBITRARY client-supplied border bytes `start`, `stop`
+(`ListByStream` hands them to the scanner as they are: 1 byte, the bare magic, 12 bytes, anything), ANY
+partitioning (any region borders `c.splits`, in any order), ANY store (well-formed or not), any revision — the
+answer of `doStream` / `scanParts` is a result or an error, never the crash of the scan goroutine. -/
+theorem stream_with_any_borders_never_panics (c : Cfg) (s : BState) (start stop : Bytes) (rev : Nat) :
+    ((∃ res, doStream c s start stop rev = .ok res) ∨ (∃ e, doStream c s start stop rev = .error e)) ∧
+    ((∃ outs, scanParts c s.store start stop rev = .ok outs) ∨ (∃ e, scanParts c s.store start stop rev = .error e)) :=
+  ⟨ScanRes.notPanic_iff.mp (doStream_notPanic c s start stop rev),
+   ScanRes.notPanic_iff.mp (scanParts_notPanic c s.store start stop rev)⟩
+
+/-- ... `doStream` in fact always hands back a stream (a scan error becomes its terminator). -/
+theorem stream_always_answers (c : Cfg) (s : BState) (start stop : Bytes) (rev : Nat) :
+    ∃ res, doStream c s start stop rev = .ok res := by
+  have hnp := scanParts_notPanic c s.store start stop (if rev == 0 then s.committed else rev)
+  unfold doStream
+  simp only []
+  split
+  · exact ⟨_, rfl⟩
+  · exact ⟨_, rfl⟩
+  · rename_i h; rw [h] at hnp; exact hnp.elim
+
+/-- RANGE READS AND COUNTS NEVER PANIC: any store, any bounds (any bytes), any limit, any revision, any
+partitioning. -/
+theorem list_never_panics (c : Cfg) (s : BState) (key stop : Bytes) (rev limit : Nat) :
+    ((∃ res, doList c s key stop rev limit = .ok res) ∨ (∃ e, doList c s key stop rev limit = .error e)) ∧
+    ((∃ res, doCount c s key stop = .ok res) ∨ (∃ e, doCount c s key stop = .error e)) :=
+  ⟨ScanRes.notPanic_iff.mp (doList_notPanic c s key stop rev limit),
+   ScanRes.notPanic_iff.mp (doCount_notPanic c s key stop)⟩
+
+/-- WHAT REMAINS ABLE TO PANIC IN THE BACKEND MODEL, and why: only a compaction, only in its TTL pass
+(`compactIfExpired`, scanner.go: `binary.BigEndian.Uint64(value)` on the revision record of an event key) — on
+an engine WITHOUT native TTL (TiKV), with a non-zero timeout revision, on a revision record (revision 0) of a key
+under the events prefix whose value is shorter than 8 bytes. The backend writes revision-record values of 8 or 9
+bytes only (C10 `parseRevision_live`, `parseRevision_deleted`), so this takes a store not written by the backend. -/
+theorem compact_panics_only_in_ttl_pass (c : Cfg) (s : BState) (rev : Nat) (mask : Nat → DelOutcome)
+    (h : ¬ ((∃ r, (doCompact c s rev mask).1 = .ok r) ∨ (∃ e, (doCompact c s rev mask).1 = .error e))) :
+    c.q.supportTTL = false ∧
+      ∃ (w : WCfg) (recs : List Rec), w.supportTTL = false ∧ w.timeout ≠ 0 ∧ w.eventsPfx = eventsPrefixOf c ∧
+        ∃ r ∈ recs, r.rev = 0 ∧ isEventKey w r.key = true ∧ r.val.length < 8 :=
+  doCompact_panic_source (fun hnp => h (ScanRes.notPanic_iff.mp hnp))
+
+/-- ... never on an engine with native TTL (memkv, Badger). -/
+theorem compact_never_panics_native_ttl (c : Cfg) (hq : c.q.supportTTL = true) (s : BState) (rev : Nat)
+    (mask : Nat → DelOutcome) :
+    (∃ r, (doCompact c s rev mask).1 = .ok r) ∨ (∃ e, (doCompact c s rev mask).1 = .error e) :=
+  ScanRes.notPanic_iff.mp (doCompact_notPanic_native_ttl c hq s rev mask)
+
+/-- The numbers: a two-region engine split at an internal key, a streamed range whose END is 1 byte, the bare
+magic (4 bytes — the request that killed the process before /repo 5ace897: the TiKV adapter clips the end into
+every region, `adjustPartitionsBorders` decodes it) or 12 bytes, and whose START is such bytes: each is answered
+with an (empty) stream; the old `Decode` indexed out of range on the very same borders. -/
+theorem short_border_stream_witness :
+    let c : Cfg := { q := Quirks.tikv, splits := [encode [47, 114, 47, 98] 0] }
+    let s : BState := { ring := Ring.new 1, dealt := 1000, committed := 1000, store := [(encode [47, 114, 47, 97] 5, [1])] }
+    (∀ b ∈ [[47], magic, magic ++ [36, 0, 0, 0, 0, 0, 0, 0]],
+      (match doStream c s [47, 114, 47] b 0 with | .ok r => r.endErr == none | _ => false) = true ∧
+      (match doStream c s b [47, 114, 48] 0 with | .ok r => r.endErr == none | _ => false) = true) ∧
+    decodeOld [47] = .panic ∧ decodeOld magic = .panic := by
+  decide
 
 /-- and the two raw records outside the magic range (`<prefix>/compact_key`) are never handed to
 `Decode` by a scan of an object range: they do not lie between two encoded bounds. -/
@@ -189,5 +271,20 @@ theorem compact_key_outside_object_ranges (c : Cfg) (a b : Bytes) (ha : Alphabet
       omega
     · have : 87 < x := by omega
       simp [this, hx] at h2
+
+/-! Non-vacuity of the implications added with /repo 5ace897. -/
+example : ([87, 251, 128, 139] : Bytes).length < 13 ∧ ([(([1] : Bytes), ([2] : Bytes))] : List (Bytes × Bytes)) ≠ [] ∧
+    adjustBorders (some [87, 251, 128, 139]) [([1], [2])] = some [([87, 251, 128, 139], [2])] := by decide
+-- compact_panics_only_in_ttl_pass: its hypothesis (the compaction is answered with neither a result nor an error) occurs —
+-- TiKV, a mark older than the TTL, a revision record of an event key with a 1-byte value
+example : ¬ ((∃ r, (doCompact { q := Quirks.tikv, pfx := [47, 114], ttl := 1 }
+      { ring := Ring.new 4, dealt := 1000, committed := 1000, marks := [(900, 0)], now := 10,
+        store := [(encode [47, 114, 47, 101, 118, 101, 110, 116, 115, 47, 120] 0, [1])] } 950 (fun _ => .ok)).1 = .ok r) ∨
+    (∃ e, (doCompact { q := Quirks.tikv, pfx := [47, 114], ttl := 1 }
+      { ring := Ring.new 4, dealt := 1000, committed := 1000, marks := [(900, 0)], now := 10,
+        store := [(encode [47, 114, 47, 101, 118, 101, 110, 116, 115, 47, 120] 0, [1])] } 950 (fun _ => .ok)).1 = .error e)) := by
+  rw [← ScanRes.notPanic_iff]
+  decide
+example : Quirks.memkv.supportTTL = true ∧ Quirks.badger.supportTTL = true ∧ Quirks.tikv.supportTTL = false := by decide
 
 end KB.C20Requests
